@@ -16,7 +16,8 @@ RULE = (
     "Generated: a 'keeping' skeleton (the constructors that keep the object they are given: Label, UntypedLabel, Index, "
     "Branch children and Select.cut, nested up to 3 levels) with arbitrary subtrees at its leaves, and two installing "
     "positions: siblings, cousins under different parents, an aggregator inside one sub-tree (a bin, a flow, a nanflow) and "
-    "a position or nanflow slot elsewhere, or a node and its own ancestor (a cycle, only constructible "
+    "a position or nanflow slot elsewhere, a bin of a fillable template-less Categorize (value=None, bins taken over through "
+    "+=) and a position elsewhere, or a node and its own ancestor (a cycle, only constructible "
     "by assigning the attribute after construction); the shared object is whatever subtree was built at the first "
     "position, installed through the constructors or assigned into a tree derived by copy / + / * / zero (filled before "
     "or not); row-wise or vectorised fill; first and repeated attempts.  Control group: the same skeletons without "
@@ -105,7 +106,15 @@ def strategy(tier):
         if spec["k"] not in KEEP:
             spec = {"k": "Branch", "values": [spec, draw(gen.tree_specs(leaf_opts))]}
         pos = keep_positions(spec)
-        mode = draw(st.sampled_from(("shared", "shared", "inner", "cycle", "control", "control")))
+        mode = draw(st.sampled_from(("shared", "shared", "inner", "cycle", "control", "control", "templateless")))
+        if mode == "templateless":
+            # a fillable Categorize WITHOUT a value template (value=None) that took its bins over from other histograms
+            # through += ; one of its bins is then installed a second time elsewhere in the tree
+            cats = draw(st.lists(st.sampled_from(("a", "b", "c", "d")), min_size=2, max_size=4, unique=True))
+            return {"mode": "templateless", "spec": {"k": "Count"}, "cats": cats, "merges": draw(st.integers(1, 3)),
+                    "content": draw(st.sampled_from(("Count", "Sum"))), "shared_i": draw(st.integers(0, 3)),
+                    "where": draw(st.sampled_from(("sibling", "cousin", "nanflow"))), "numpy": draw(st.booleans()),
+                    "fill_rows": draw(st.lists(st.sampled_from(cats), min_size=1, max_size=4)), "control": draw(st.integers(0, 3)) == 0}
         case = {"spec": spec, "mode": mode, "numpy": draw(st.booleans()), "templates": draw(st.sampled_from(("default", "explicit", "separate"))),
                 # a sub-tree may have been filled on its own (or unpickled) before it became part of the tree: its
                 # once-only flags are then already set when the root is filled for the first time
@@ -241,9 +250,68 @@ def shallow_state(root):
     return out
 
 
+def run_templateless(case):
+    hg = lib()
+    from histogrammar.defs import ContainerException  # noqa: PLC0415
+
+    q = eval("lambda d: d['s']", {})  # noqa: S307
+    leaf = (lambda: hg.Count()) if case["content"] == "Count" else (lambda: hg.Sum(eval("lambda d: d['x']", {})))  # noqa: S307
+    c = hg.Categorize(q, None)
+    c.contentType = case["content"]
+    cats = case["cats"]
+    parts = [cats[i :: case["merges"]] for i in range(case["merges"])]
+    for part in parts:
+        src = hg.Categorize(q, leaf())
+        for s_ in part:
+            src.fill({"s": s_, "x": 1.0, "w": 1.0})
+        c += src
+    keys = list(c.bins)
+    shared = c.bins[keys[case["shared_i"] % len(keys)]]
+    w = eval("lambda d: d['w']", {})  # noqa: S307
+    if case["control"]:
+        root = hg.Branch(c, leaf())  # nothing shared: must be accepted
+    elif case["where"] == "sibling":
+        root = hg.Branch(c, shared)
+    elif case["where"] == "cousin":
+        root = hg.UntypedLabel(x=c, y=hg.Select(w, shared))
+    else:
+        sb = hg.SparselyBin(1.0, eval("lambda d: d['x']", {}), hg.Count())  # noqa: S307
+        sb.nanflow = shared
+        root = hg.Branch(c, sb)
+    rows = [{"s": s_, "x": 1.0, "w": 1.0} for s_ in case["fill_rows"]]
+
+    def attempt():
+        if case["numpy"]:
+            root.fill.numpy({"s": np.array([r["s"] for r in rows]), "x": np.array([r["x"] for r in rows]), "w": np.array([r["w"] for r in rows])})
+        else:
+            for r in rows:
+                root.fill(r)
+
+    labels = ["mode:templateless", "where:" + ("control" if case["control"] else case["where"]), "numpy" if case["numpy"] else "row"]
+    if case["control"]:
+        attempt()
+        attempt()
+        return {"nontrivial": False, "labels": labels}
+    before = shallow_state(root)
+    for n_attempt in (1, 2):
+        raised = None
+        try:
+            attempt()
+        except ContainerException as e:
+            raised = e
+        require(raised is not None, "shared-node-filled", f"a bin of a template-less Categorize (bins taken over through {case['merges']} += ) also installed as {case['where']}: attempt {n_attempt} to fill raised nothing", {"shape": "templateless"})
+        after = shallow_state(root)
+        changed = [f"{before[i][0]}: {before[i][1]} -> {after[i][1]}" for i in before if after.get(i) != before[i]]
+        require(not changed, "shared-node-state-changed", lambda: f"template-less Categorize: state changed although fill raised: {changed[:3]}")  # noqa: B023
+    return {"nontrivial": case["merges"] >= 2, "labels": labels}
+
+
 def check(case):  # noqa: PLR0912, PLR0915
     hg = lib()
     from histogrammar.defs import ContainerException  # noqa: PLC0415
+
+    if case.get("mode") == "templateless":
+        return run_templateless(case)
 
     spec, mode = case["spec"], case["mode"]
     rows = [(r, w) for r, w in case["rows"]]
